@@ -142,7 +142,7 @@ theorem namesTexts_plain (n : Nat) (names : Option (List PyStr)) :
     node shapes, edge paths and names the specification expects. -/
 theorem visualizeGraph_docMeets (ν : Nums) (a : GraphArgs) (d : Drawing) (hν : SafeNums ν) (hsort : SortOk ν)
     (hnc : SafeStr a.nodeColor) (hec : ∀ c, a.edgeColor = some c → SafeStr c) (hlc : SafeLabelColors a.labelColors)
-    (hp : ProbsOk a.probs) (hnn : NonNeg a.entries)
+    (hp : ProbsOk a.probs)
     (hnd : truthy a.width = true ∨ truthy a.height = true) (hs : a.lay.scale ≠ 0)
     (hidx : ∀ e ∈ a.entries, e.1 < a.pos.length ∧ e.2.1 < a.pos.length)
     (h : visualizeGraph ν a = .ok d) : docMeets (render d.svg) (expectedGraph a) = true := by
@@ -170,7 +170,7 @@ theorem visualizeGraph_docMeets (ν : Nums) (a : GraphArgs) (d : Drawing) (hν :
   obtain ⟨he1, he2⟩ := graphEdgeParts_inner hν a pos hec hlc hedges
   have hI : Inner (edges.2 ++ (nodes ++ text)) :=
     Inner.append he2 (Inner.append (graphNodes_inner hν _ _ _ hcs hnodes) (namesText_inner hν _ _ _ _ htext))
-  have hS := Shape.append (graphEdgeParts_shape hsort hnn hedges)
+  have hS := Shape.append (graphEdgeParts_shape hsort hedges)
     (Shape.append (graphNodes_shape hp hnodes) (namesText_shape htext))
   have hdoc := docMeets_svgDoc hν false true edges.1 he1 hI hS
   have hcount := graphEdgeCount_eq hpos hnd hs hidx (fun hde => residual_bounds hedges hde)
@@ -229,7 +229,7 @@ def bigraphEdgeCount (a : BigraphArgs) : Nat :=
   if a.displayEdges then (bigraphEs a).length + (residPairs (bigraphEs a) a.edgeLabels).length else 0
 
 theorem bigraphEdges_shape {ν : Nums} {a : BigraphArgs} {ps : List Piece} (hsort : SortOk ν)
-    (hnn : NonNeg a.entries) (h : bigraphEdges ν a = .ok ps) : Shape ps ⟨0, 0, bigraphEdgeCount a, []⟩ := by
+    (h : bigraphEdges ν a = .ok ps) : Shape ps ⟨0, 0, bigraphEdgeCount a, []⟩ := by
   unfold bigraphEdges at h
   unfold bigraphEdgeCount
   split at h
@@ -245,8 +245,6 @@ theorem bigraphEdges_shape {ν : Nums} {a : BigraphArgs} {ps : List Piece} (hsor
     simp only [Except.ok.injEq] at h
     subst h
     obtain ⟨⟨data, hord, hdata⟩, hres⟩ := getEdgeColors_struct hec
-    have hpos : ((bigraphEs a).filter fun e => e.2.2 > 0) = bigraphEs a := pos_filter_of_nonneg _ hnn
-    rw [hpos] at hdata
     have h1 := bistoredEdges_shape hstored
     rw [hord, (hsort data).length_eq, List.length_range, hdata] at h1
     have h2 := biresidEdges_shape ν ec.residual
@@ -264,7 +262,7 @@ theorem bigraphEdges_shape {ν : Nums} {a : BigraphArgs} {ps : List Piece} (hsor
 theorem visualizeBigraph_docMeets (ν : Nums) (a : BigraphArgs) (d : Drawing) (hν : SafeNums ν) (hsort : SortOk ν)
     (hcr : SafeStr a.colorRow) (hcc : SafeStr a.colorCol) (hec : ∀ c, a.edgeColor = some c → SafeStr c)
     (hlc : SafeLabelColors a.labelColors) (hpr : ProbsOk a.probsRow) (hpc : ProbsOk a.probsCol)
-    (hnn : NonNeg a.entries) (h : visualizeBigraph ν a = .ok d) :
+    (h : visualizeBigraph ν a = .ok d) :
     docMeets (render d.svg) (expectedBigraph a) = true := by
   unfold visualizeBigraph at h
   simp only [bind, Except.bind, pure, Except.pure] at h
@@ -300,7 +298,7 @@ theorem visualizeBigraph_docMeets (ν : Nums) (a : BigraphArgs) (d : Drawing) (h
     Inner.append (bigraphEdges_inner hν a hec hlc hedges)
       (Inner.append (nodeLoop_inner hν _ _ _ h1 hnr) (Inner.append (nodeLoop_inner hν _ _ _ h2 hnc)
         (Inner.append (namesText_inner hν _ _ _ _ htr) (namesText_inner hν _ _ _ _ htc))))
-  have hS := Shape.append (bigraphEdges_shape hsort hnn hedges)
+  have hS := Shape.append (bigraphEdges_shape hsort hedges)
     (Shape.append (nodeLoop_shape hpr hnr) (Shape.append (nodeLoop_shape hpc hnc)
       (Shape.append (namesText_shape htr) (namesText_shape htc))))
   have hdoc := docMeets_svgDoc hν true true [] (fun _ hc => by simp at hc) hI hS
